@@ -352,15 +352,22 @@ impl<'tx> TxInner<'tx> {
                 m.tx_id = self.meta.tx_id;
                 m.hash = m.hash_self();
 
-                file.seek(SeekFrom::Start(self.db.inner.pagesize * meta_page_id))?;
-                file.write_all(buf.as_slice())?;
+                // Transactions read the meta page through the memory map, so from the moment
+                // the new meta page is in the page cache this commit is what they see, even
+                // if the write is cut short after the meta data or the sync below fails.
+                // The shared freelist must always describe the state the meta page describes,
+                // otherwise the next writer hands out pages that are in use.
+                let result = file
+                    .seek(SeekFrom::Start(self.db.inner.pagesize * meta_page_id))
+                    .and_then(|_| file.write_all(buf.as_slice()))
+                    .and_then(|_| file.flush())
+                    .and_then(|_| file.sync_all());
+                if result.is_ok() || self.db.inner.meta()?.tx_id == self.meta.tx_id {
+                    let mut lock = self.db.inner.freelist.lock()?;
+                    *lock = freelist.inner.clone();
+                }
+                result?;
             }
-
-            file.flush()?;
-            file.sync_all()?;
-
-            let mut lock = self.db.inner.freelist.lock()?;
-            *lock = freelist.inner.clone();
             Ok(())
         } else {
             unreachable!()
